@@ -89,8 +89,22 @@ def splice_pair(rng):
     return ({'pa': a + '###pb=1'}, {'pa': a, 'pb': 1})
 
 
+def float_pair(rng):
+    """two floats that are different numbers but close: neighbours, or differing far behind the decimal point"""
+    import math
+    x = rng.choice([0.1, 1 / 3, 1e-11, 2e-12, 123456.789, 1e16, 5e-324, 0.30000000000000004, rng.random(), rng.random() * 1e-9, rng.uniform(-1e6, 1e6)])
+    y = rng.choice([math.nextafter(x, math.inf), x * (1 + 2 ** -40), x + 1e-11, x * (1 - 1e-12), x + abs(x) * 1e-7 + 1e-300])
+    if y == x:
+        y = math.nextafter(x, -math.inf)
+    wrap = rng.choice([lambda v: v, lambda v: [1, v], lambda v: {'k': [v]}, lambda v: [{'a': {'b': v}}]])
+    return {'pa': wrap(x)}, {'pa': wrap(y)}
+
+
 def gen_pair(rng):
     r = rng.random()
+    if r < 0.06:
+        A, B = float_pair(rng)
+        return A, B, 'floats'
     if r < 0.3:
         A, B = splice_pair(rng)
         return A, B, 'splice'
